@@ -236,3 +236,22 @@ func (s *Sys) auditFast() string {
 	label, _ := s.db.Get([]byte("mstorage_version"))
 	return "af(" + string(label) + ";[" + strings.Join(parts, ",") + "])"
 }
+
+// auditRaw dumps the stored bytes of every 's' and 'f' key and the storage label, to be decoded by the
+// extracted Coq decoders: raw[<hexkey>=<hexvalue>;...]
+func (s *Sys) auditRaw() string {
+	it, err := s.db.Iterator(nil, nil)
+	if err != nil {
+		return "err"
+	}
+	defer it.Close()
+	var parts []string
+	for ; it.Valid(); it.Next() {
+		k := it.Key()
+		if len(k) == 0 || (k[0] != 's' && k[0] != 'f' && k[0] != 'm') {
+			continue
+		}
+		parts = append(parts, hex.EncodeToString(k)+"="+hex.EncodeToString(it.Value()))
+	}
+	return "raw[" + strings.Join(parts, ";") + "]"
+}
